@@ -779,7 +779,7 @@ def run(ctx):
             raise runner.BuildError(f"base link {name} fails on the valid corpus: rc={rc} {err[:400]}")
     inprocess(ctx, d)
 
-    budget = 1200 if ctx.quick else 120000
+    budget = 1200 if ctx.quick else 10000
     jobs = []   # (kind, cls, desc, argv, fname, blob)
     for kind, cls, desc, argv, fname, blob in regression_cases(d):
         jobs.append((kind, cls, "regression: " + desc, argv, fname, blob))
